@@ -420,9 +420,12 @@ def main(run):
                     lines.append("glistwf %d %s %s" % (len(Gl), U.flat(Gl), U.ints(nu)))
                     meta.append(("g-list-certificate", info, lambda line: None if line == "true" else "gListWf = %s on the implementation's G_list" % line))
                 # the list itself: model _get_G_list at the implementation's index radius
-                r_impl = int(dm._get_minimum_g_rad(Gc, 100))
-                if r_impl <= 8:
-                    lines.append("glist %s %s %s %d" % (U.flat(rec), U.flat(np.array(prim.cell)), q(Fraction(float(Gc)) ** 2), r_impl))
+                # (index radius re-derived from the public list: n = cell . G; the private routine is an optional refinement)
+                n_idx = np.rint(np.asarray(Gl) @ np.asarray(prim.cell).T)
+                r_eff = int(np.abs(n_idx).max()) if len(n_idx) else 0
+                r_impl = _index_radius(run, dm, Gc)
+                if r_eff <= 8:
+                    lines.append("glist %s %s %s %d" % (U.flat(rec), U.flat(np.array(prim.cell)), q(Fraction(float(Gc)) ** 2), r_eff))
                     meta.append(("g-list", info, lambda line, Gl=np.array(Gl), rec=rec, r=r_impl: _cmp_glist(line, Gl, rec, r, run)))
                 # time reversal on the implementation: D(-q) = conj D(q) exactly (same list, -K for K)
                 dq = _run_dm(ph, -q_gen)
@@ -585,6 +588,19 @@ def _batched_oracle(run, rng, ph, prim, rec, cp, q_c, q_gen, n1, plain, sc, sc_d
     batched_vs_single("Phonopy.run_qpoints", api)
 
 
+def _index_radius(run, dm, Gc):
+    """optional hook: the index radius the implementation used (private routine); None when it is not there"""
+    f = getattr(dm, "_get_minimum_g_rad", None)
+    if f is None:
+        run.count("intermediate hook unavailable: DynamicalMatrixGL._get_minimum_g_rad")
+        return None
+    try:
+        return int(f(Gc, 100))
+    except Exception:
+        run.count("intermediate hook unavailable: DynamicalMatrixGL._get_minimum_g_rad")
+        return None
+
+
 def _cmp_glist(line, Gl, rec, r_impl, run):
     """model answer `minGRad safeGRad len n...` vs the implementation's G_list at its own index radius"""
     if line == "bad-op":
@@ -593,9 +609,10 @@ def _cmp_glist(line, Gl, rec, r_impl, run):
     r_old, r_safe, ln = int(t[0]), int(t[1]), int(t[2])
     n = np.array(list(map(int, t[3:])), dtype=float).reshape(-1, 3)
     # the routine now in /repo (fix ce56bcc) is the model `safeGRad`; `minGRad` models the routine as found
-    if r_impl != r_safe:
-        return "index radius %d of the implementation is not floor(G_cutoff max|a_i|)+1 = %d (model safeGRad; as-found routine: %d)" % (r_impl, r_safe, r_old)
-    run.count("index radius = safeGRad" + (" (as-found routine gives the same)" if r_old == r_safe else " (as-found routine would give %d)" % r_old), section="correspondence")
+    if r_impl is not None:
+        if r_impl != r_safe:
+            return "index radius %d of the implementation is not floor(G_cutoff max|a_i|)+1 = %d (model safeGRad; as-found routine: %d)" % (r_impl, r_safe, r_old)
+        run.count("index radius = safeGRad" + (" (as-found routine gives the same)" if r_old == r_safe else " (as-found routine would give %d)" % r_old), section="correspondence")
     if ln != len(Gl) or len(n) != len(Gl):
         return "model list has %d vectors, implementation %d" % (ln, len(Gl))
     Gm = n @ np.asarray(rec).T
@@ -651,17 +668,18 @@ def _glist_observations(run, rng, thorough):
         ph.run_qpoints(qs, with_dynamical_matrices=True)
         d1 = np.array(ph.get_qpoints_dict()["dynamical_matrices"])
         dm = ph.dynamical_matrix
-        Gtrue, norms = _exact_glist_count(prim.cell, rec, dm._G_cutoff)
-        have = {tuple(np.round(g, 9)) for g in dm._G_list}
+        _fcsr, _ddq0, g_cut, g_list, lam = dm.Gonze_nac_dataset  # public property
+        Gtrue, norms = _exact_glist_count(prim.cell, rec, g_cut)
+        have = {tuple(np.round(g, 9)) for g in g_list}
         miss = [nm for g, nm in zip(Gtrue, norms) if tuple(np.round(g, 9)) not in have]
-        L2 = 4 * dm._Lambda ** 2
+        L2 = 4 * lam ** 2
         wmax = max([math.exp(-m * m * 2.5 / L2) for m in miss], default=0.0)
         dev = U.maxdiff(d1, d0)
         scale = max(float(np.abs(d0).max()), 1e-300)
-        obs.append(dict(cell=tag, lattice=np.round(lat, 6).tolist(), supercell_matrix=S.tolist(), G_cutoff=float(dm._G_cutoff),
-                        index_radius=int(dm._get_minimum_g_rad(dm._G_cutoff, 100)),
-                        listed=int(len(dm._G_list)), inside_cutoff=int(len(Gtrue)), missing=len(miss),
-                        smallest_missing_over_cutoff=(float(min(miss) / dm._G_cutoff) if miss else None), largest_omitted_weight=wmax,
+        obs.append(dict(cell=tag, lattice=np.round(lat, 6).tolist(), supercell_matrix=S.tolist(), G_cutoff=float(g_cut),
+                        index_radius=_index_radius(run, dm, g_cut),
+                        listed=int(len(g_list)), inside_cutoff=int(len(Gtrue)), missing=len(miss),
+                        smallest_missing_over_cutoff=(float(min(miss) / g_cut) if miss else None), largest_omitted_weight=wmax,
                         first_zone_commensurate_noop_deviation=dev, relative=dev / scale, q=qs.tolist()))
         run.case(("skewed", np.round(lat, 6).tolist(), S.tolist()), nontrivial=bool(miss))
         run.count("skewed-basis stream: default G list %s" % ("complete" if not miss else "incomplete"))
@@ -669,7 +687,7 @@ def _glist_observations(run, rng, thorough):
         if dev > 1e-6 * scale:
             run.violation("Phonopy.run_qpoints", "commensurate-noop-gonze-skewed-basis",
                           "Gonze-Lee correction changes D at a first-zone commensurate q by %.3g (relative %.2g; default G list has %d of the %d vectors inside G_cutoff)"
-                          % (dev, dev / scale, len(dm._G_list), len(Gtrue)),
+                          % (dev, dev / scale, len(g_list), len(Gtrue)),
                           dict(lattice=np.round(lat, 6).tolist(), symbols=["Na", "Cl"], scaled_positions=[[0, 0, 0], [0.5, 0.5, 0.5]], supercell_matrix=S.tolist(),
                                born=Z.tolist(), dielectric=E.tolist(), factor=14.4, method="gonze", q=qs.tolist(), fc="pair potential, cutoff 0.9*min lattice vector"))
     run.cov["observations"] = {
